@@ -270,6 +270,7 @@ func runC24(c *Ctx) {
 
 	runC24AtomicCallee(c)
 	runC24InForce(c)
+	runC24DefaultsBeforeEffects(c)
 
 	// roundtrip
 	checkLit := func(fnName, typ string, exempt map[string]bool) {
